@@ -274,7 +274,7 @@ fn nnbi_case(rep: &mut Report, lb: Option<u64>, ub: Option<u64>, v: u64) {
 fn length_case(rep: &mut Report, lb: Option<u64>, ub: Option<u64>, v: u64) {
     let l = lb.unwrap_or(0);
     let mut reference = BitOut::new();
-    let mut deviation = None;
+    let deviation: Option<(&'static str, BitOut)> = None;
     // the value the reader must return: the count covered by this determinant (first fragment for >= 16K)
     let mut expect = v;
     let adm = match ub {
@@ -301,14 +301,6 @@ fn length_case(rep: &mut Report, lb: Option<u64>, ub: Option<u64>, v: u64) {
                     reference.push(true);
                     reference.push_uint(m as u128, 6);
                     expect = m * 16384;
-                }
-                if lb.is_some() || ub.is_some() {
-                    let mut d = BitOut::new();
-                    let du = ub.unwrap_or(i64::MAX as u64).min(i64::MAX as u64);
-                    if l != du {
-                        cwn(&mut d, l as i128, du as i128, v as i128);
-                    }
-                    deviation = Some(("len-large-ub", d));
                 }
                 Adm::Admissible
             }
@@ -345,7 +337,7 @@ fn length_case(rep: &mut Report, lb: Option<u64>, ub: Option<u64>, v: u64) {
 fn index_case(rep: &mut Report, choice: bool, std: u64, ext: bool, idx: u64) {
     let mut reference = BitOut::new();
     let adm = if std == 0 {
-        if ext && idx < u64::MAX {
+        if ext {
             // an extensible type with an empty root is not legal ASN.1; only "no panic" is demanded
             Adm::Unspecified
         } else {
@@ -501,6 +493,10 @@ fn size_of(lb: Option<u64>, ub: Option<u64>, ext: bool) -> Size {
 fn string_adm(lb: Option<u64>, ub: Option<u64>, ext: bool, n: u64) -> (Adm, bool) {
     let l = lb.unwrap_or(0);
     let u = ub.unwrap_or(u64::MAX);
+    if ext && (l > u || (lb.is_none() && ub.is_none())) {
+        // an extensible size constraint with an empty or absent root is not legal ASN.1: only "no panic" is demanded
+        return (Adm::Unspecified, false);
+    }
     if l > u {
         return (Adm::Inadmissible, false);
     }
